@@ -175,12 +175,35 @@ def test_fmodel(rnd, n=2000):
     return bad
 
 
+def test_timeout():
+    """A spinning case is reported as `timeout`; an idle wait is not
+    (the limit is CPU time, so machine load cannot raise an alarm)."""
+    import time
+    from vlib import runner
+
+    class M:
+        CASE_TIMEOUT = 0.5
+
+        @staticmethod
+        def run_case(case, acc):
+            if case == 'spin':
+                while True:
+                    pass
+            time.sleep(1.5)
+    acc = runner.Acc()
+    runner.run_with_timeout(M, 'spin', acc)
+    bad = 0 if [v['kind'] for v in acc.viol] == ['timeout'] else 1
+    runner.run_with_timeout(M, 'sleep', acc)
+    return bad + (0 if len(acc.viol) == 1 else 1)
+
+
 def main():
     rnd = random.Random(int(os.environ.get('VERIF_SEED', '0')))
     res = dict(
         zielonka_children=test_children(rnd),
         determinacy=test_determinacy(rnd),
         c99_division=test_fmodel(rnd),
+        case_timeout_is_cpu_time=test_timeout(),
         scc_criterion_vs_spin=test_spin(rnd))
     for k, v in res.items():
         print(f'{k}: ' + ('skipped (tool missing)' if v is None
